@@ -72,12 +72,13 @@ Proof. exact conv_cell_value. Qed.
 Print Assumptions C17_cell_is_units.
 
 (* With a formatter (any function): the cell is quantize(u, CUR) where u has the value of that
-   sum; NULL only if the currency is absent, or u is zero, or u quantizes to zero. *)
+   sum; NULL only if the currency is absent or u is zero (a non-zero u that quantizes to 0.00
+   stays 0.00, for all three datatypes). *)
 Theorem C17_cell_is_quantized_units : forall f dt cur c,
   dt_amountlike dt = true -> cell_ok dt c = true ->
   exists u, (dec_q u == sum_q (units_of cur c))%Q /\
     ((conv_cell f dt cur c = cnull /\
-      (units_of cur c = [] \/ dec_is_zero u = true \/ dec_is_zero (quant f u cur) = true))
+      (units_of cur c = [] \/ dec_is_zero u = true))
      \/ conv_cell f dt cur c = CPlain (VDec (quant f u cur))).
 Proof. exact conv_cell_value_fmt. Qed.
 Print Assumptions C17_cell_is_quantized_units.
@@ -88,7 +89,7 @@ Theorem C17_cell_is_units_scaled : forall f dt cur c e,
   e <= 0 -> (forall d, In d (units_of cur c) -> e <= dexp d) ->
   exists u, e <= dexp u /\ sc e u = sum_sc e (units_of cur c) /\
     ((conv_cell f dt cur c = cnull /\
-      (units_of cur c = [] \/ dec_is_zero u = true \/ dec_is_zero (quant f u cur) = true))
+      (units_of cur c = [] \/ dec_is_zero u = true))
      \/ conv_cell f dt cur c = CPlain (VDec (quant f u cur))).
 Proof. exact conv_cell_units. Qed.
 Print Assumptions C17_cell_is_units_scaled.
